@@ -79,7 +79,26 @@ DirtyVerdict(e) ==
   ELSE IF ~b /\ e.exit # 0 THEN <<"dirty:divergence-refused-although-clean-enough", 0>>
   ELSE Good
 
-Verdict(e) == CASE e.ev = "dirty" -> DirtyVerdict(e) [] e.ev = "argv" -> ArgvVerdict(e) [] e.ev = "msg" -> MsgVerdict(e) [] e.ev = "fault" -> FaultVerdict(e) [] e.ev = "steps" -> StepsVerdict(e) [] OTHER -> <<"unknown-event", e.ev>>
+\* an `update` somebody else scripted (the repository's own tests, recorded through the hooks): the configuration is not known,
+\* so the log is checked against the configuration-independent part of C10: order, no tag/push without commit, --dry inert, --no-fetch
+OrderNames == <<"status", "prehook", "add", "commit", "posthook", "tag", "tag_light", "push", "push_tag">>
+Pos(n) == CHOOSE q \in 1..Len(OrderNames) : OrderNames[q] = n
+Rank(n) == IF n \in {"tag", "tag_light"} THEN 6 ELSE IF n \in {"push", "push_tag"} THEN 7 ELSE Pos(n)
+OrderVerdict(e) ==
+  LET p == SelectSeq(Project(e.log), LAMBDA x : x \in {OrderNames[q] : q \in 1..Len(OrderNames)})
+      has(n) == \E q \in 1..Len(p) : p[q] = n IN
+  IF \E a, b \in 1..Len(p) : a < b /\ Rank(p[a]) > Rank(p[b]) THEN <<"order:steps-out-of-order", p>>
+  ELSE IF (has("tag") \/ has("tag_light") \/ has("push") \/ has("push_tag") \/ has("posthook")) /\ ~has("commit") THEN <<"order:tag-or-push-without-commit", p>>
+  ELSE IF e.dry /\ (p # <<>> \/ HasHook(e.log)) THEN <<"order:dry-run-not-inert", p>>
+  ELSE IF ~e.fetch /\ \E q \in 1..Len(e.log) : e.log[q].name = "fetch" THEN <<"order:fetch-despite-no-fetch", 0>>
+  ELSE Good
+\* the shape of one recorded VCS invocation: fixed words in place, exactly one argument per hole (values taken from the argv itself)
+ShapeVerdict(e) ==
+  IF e.values = <<>> THEN <<"shape:too-few-arguments", Len(e.argv)>>
+  ELSE LET want == Argv(e.tool, e.name, e.values) IN
+  IF Len(e.argv) # Len(want) THEN <<"shape:argument-count", Len(want)>> ELSE IF e.argv # want THEN <<"shape:fixed-words", want>> ELSE Good
+
+Verdict(e) == CASE e.ev = "order" -> OrderVerdict(e) [] e.ev = "shape" -> ShapeVerdict(e) [] e.ev = "dirty" -> DirtyVerdict(e) [] e.ev = "argv" -> ArgvVerdict(e) [] e.ev = "msg" -> MsgVerdict(e) [] e.ev = "fault" -> FaultVerdict(e) [] e.ev = "steps" -> StepsVerdict(e) [] OTHER -> <<"unknown-event", e.ev>>
 TraceNext == /\ l <= Len(Trace) /\ l' = l + 1
              /\ LET v == Verdict(Trace[l]) IN v[1] = OK \/ Report(Trace[l], v[1], v[2])
 TraceAccepted == TLCGet("stats").diameter - 1 = Len(Trace)
